@@ -377,13 +377,24 @@ def generate(repo, emit, src, func_body):
     want_shape = 'if(clsislit){varinst=((var*)self)[i];if(instisNULL){inst=Type_Scan(self,lit);((var*)self)[i]=inst;}returninst;}'
     body = func_body(ty, r'static\s+var\s+Type_Instance\s*\(\s*var\s+self\s*,\s*var\s+cls\s*\)\s*\{')
     wiring = None
+    # class numbers: position in the block of `extern var <Class>;` declarations of Cello.h that starts with Doc
+    mcl = re.search(r'((?:extern\s+var\s+\w+\s*;\s*)*extern\s+var\s+Doc\s*;\s*(?:extern\s+var\s+\w+\s*;\s*)+)', hdr)
+    classes = []
+    if mcl:
+        names = re.findall(r'extern\s+var\s+(\w+)\s*;', mcl.group(1))
+        classes = names[names.index('Doc'):]
+    emit('cfg_class_names', None if not classes else
+         'Definition cfg_class_names : list string := [%s]%%string.   (* class number = position *)'
+         % '; '.join(_coq_str(x) for x in classes))
     if body and shape == want_shape:
         m2 = re.fullmatch(r'\{\s*#if\s+CELLO_CACHE\s*==\s*1\s*((?:Type_Cache_Entry\(\s*\d+\s*,\s*\w+\s*\);\s*)+)#endif\s*return\s+Type_Scan\(self,\s*cls\);\s*\}', body.strip())
         if m2:
             wiring = [(int(a), b) for a, b in re.findall(r'Type_Cache_Entry\(\s*(\d+)\s*,\s*(\w+)\s*\)', m2.group(1))]
+            if not all(b in classes for _, b in wiring):
+                wiring = None
     emit('cfg_cache_wiring', None if not wiring else
-         'Definition cfg_cache_wiring : list (nat * string) := [%s]%%string.   (* Type_Cache_Entry(slot, Class) lines of Type_Instance *)'
-         % '; '.join('(%d, %s)' % (a, _coq_str(b)) for a, b in wiring))
+         'Definition cfg_cache_wiring : list (nat * nat) := [%s].   (* Type_Cache_Entry(slot, Class) lines of Type_Instance as (slot, class number): %s *)'
+         % ('; '.join('(%d, %d)' % (a, classes.index(b)) for a, b in wiring), ' '.join('%d=%s' % (a, b) for a, b in wiring)))
 
     # ---------------------------------------------------------------- bound guards
     okb = bool(bounds) and all(nk is not None and gk is not None for _, nk, gk in bounds)
